@@ -66,6 +66,8 @@ type vfCase struct {
 	broken   bool // the history left the WriteScheduler contract: oracle off
 	// C13 bookkeeping
 	c13        bool
+	lvlStreak  [8][2]int  // [u][b]: consecutive Pops answered from level u that served the other class while class b was sendable
+	lvlForeign [8][2]bool // a Pop answered from another level (or by nothing) fell inside that streak
 	refToggle  bool // reference prioritizeIncremental: flips exactly at Pops that find the control FIFO empty
 	lastNonInc [8]uint32
 	skipped    map[uint32]int
@@ -161,6 +163,18 @@ func (c *vfCase) describe(wr FrameWriteRequest, ok bool) (vfPopped, string) {
 		return vfPopped{kind: "ctl", tag: w.tag}, fmt.Sprintf("ok ctl %d", w.tag)
 	}
 	return vfPopped{kind: "other"}, "ok other"
+}
+
+// Known finding: the alternation between the incremental and the non-incremental class of one urgency level
+// is driven by ONE global bit that every Pop reaching the stream queues flips, also Pops answered from another
+// urgency level (or by nothing); such Pops can lock the parity and starve one class of a level.
+const vfSigParity = "p9218-alternation-global-parity"
+
+func (c *vfCase) failSig(o *vu.Out, sig, desc string) {
+	if c.broken {
+		return
+	}
+	o.Fail(sig, fmt.Sprintf("[%s] %s", c.kind, desc))
 }
 
 func (c *vfCase) fail(o *vu.Out, desc string) {
@@ -544,6 +558,11 @@ func (c *vfCase) pop(o *vu.Out) (string, string) {
 		c.fail(o, "Pop returned an empty FrameWriteRequest with ok=true")
 		return opLine, line
 	case "none":
+		if c.c13 && c.kind == "p9218" && ctlBefore == 0 {
+			for u := range c.lvlForeign {
+				c.lvlForeign[u] = [2]bool{true, true}
+			}
+		}
 		if len(c.refCtl) > 0 {
 			c.fail(o, fmt.Sprintf("Pop reports nothing to write but control frame %v is queued", c.refCtl[0]))
 		}
@@ -707,6 +726,31 @@ func (c *vfCase) oracleC13(o *vu.Out, sid uint32, sendable []uint32, toggleBefor
 		}
 		o.Stat("c13:both-classes-sendable")
 	}
+	// Level fairness, stated on the Pops answered from ONE urgency level: while both classes of the level are
+	// sendable, two consecutive Pops answered from the level must not serve the same class.
+	for lu := range c.lvlForeign {
+		if uint8(lu) != u {
+			c.lvlForeign[lu] = [2]bool{true, true}
+		}
+	}
+	other := 1 - inc
+	if otherClass {
+		if c.lvlStreak[u][other] == 0 {
+			c.lvlForeign[u][other] = false
+		}
+		c.lvlStreak[u][other]++
+		if c.lvlStreak[u][other] >= 2 {
+			sig := ""
+			if c.lvlForeign[u][other] {
+				sig = vfSigParity
+			}
+			c.failSig(o, sig, fmt.Sprintf("level starvation: %d consecutive Pops answered from urgency %d served class i=%d (last: stream %d) while a stream of class i=%d of the same urgency was sendable", c.lvlStreak[u][other], u, inc, sid, other))
+			o.Stat("c13:level-starvation")
+		}
+	} else {
+		c.lvlStreak[u][other] = 0
+	}
+	c.lvlStreak[u][inc] = 0
 	if inc == 0 {
 		if prev := c.lastNonInc[u]; prev != 0 && prev != sid {
 			for _, t := range sendable {
